@@ -182,7 +182,7 @@ def _handle_cc(report, r, nm, fam, cc, replayer, meta):
                "engine cross-validation: %d concrete runs of the harness function (%s of a space of %d), %d False" % (
                    cc["runs"], "all admissible tuples" if cc.get("whole_space") else "seeded sample", cc.get("space", 0), cc["n_bad"]),
                cc.get("wall_s", 0), cc["runs"], "engine-validation")
-    if not cc["n_bad"] and cc.get("first") is not None:
+    if not cc["n_bad"] and cc.get("first") is not None and not meta.get("no_replayer_selftest"):
         # replayer self-test: on arguments for which the harness function holds, the replay on the real code must run
         # through and must not report a violation (a replayer that crashes or cries wolf would only show when needed)
         args = tuple(cc["first"])
